@@ -507,6 +507,16 @@ def locs(rep, mod):
             rep.violate('C17.locs', mod, g, r[0] if r else q, f'{q} must return self._locs(prefix, {arg})', node=g)
 
 
+def order_rules(rep, repo):
+    """All C17 rules, for checks of properties that quantify over circuits and consume the topological order (the op list is built
+    from it): evaluated with the caller's report, rule ids keep their C17. prefix."""
+    keep = (rep.explanation, rep.trusted, rep.assumptions, rep.exhaustive)
+    try:
+        run(rep, repo)
+    finally:
+        rep.explanation, rep.trusted, rep.assumptions, rep.exhaustive = keep
+
+
 def thorough(rep, repo):
     """Thorough tier: the quick rules plus checker self-validation on the C17 slice of the mutation corpus."""
     from kvstatic import thorough as thorough_mod
